@@ -1,8 +1,9 @@
 use std::borrow::Cow;
 
+use super::escape_string_strict_buf;
 use jrsonnet_evaluator::{
 	bail, in_description_frame,
-	manifest::{escape_string_json_buf, ManifestFormat},
+	manifest::ManifestFormat,
 	val::ArrValue,
 	IStr, ObjValue, Result, ResultExt, Val,
 };
@@ -67,7 +68,7 @@ fn escape_key_toml_buf(key: &str, buf: &mut String) {
 	if bare_allowed(key) {
 		buf.push_str(key);
 	} else {
-		escape_string_json_buf(key, buf);
+		escape_string_strict_buf(key, buf);
 	}
 }
 
@@ -102,7 +103,7 @@ fn manifest_value(
 		Val::Bool(true) => buf.push_str("true"),
 		Val::Bool(false) => buf.push_str("false"),
 		Val::Str(s) => {
-			escape_string_json_buf(&s.clone().into_flat(), buf);
+			escape_string_strict_buf(&s.clone().into_flat(), buf);
 		}
 		Val::Num(n) => write!(buf, "{n}").unwrap(),
 		#[cfg(feature = "exp-bigint")]
